@@ -88,6 +88,9 @@ type wsEnv struct {
 	ID      string  // operation id
 	Payload *string // raw payload text; nil = no payload member
 	Raw     string  // the frame text that is sent
+	// history on the connection: frames sent right before Raw (e.g. the client's own complete / stop
+	// for an id that is about to be reused); they are not answered
+	Pre []string
 }
 
 func (e wsEnv) sexp() sexp.Node {
@@ -375,6 +378,16 @@ func (c *wsClient) read(d time.Duration) (wsMsg, int, error) {
 	return m, 0, nil
 }
 
+func (c *wsClient) sendAll(frames []string) {
+	for _, f := range frames {
+		c.conn.SetWriteDeadline(time.Now().Add(5 * time.Second))
+		if err := c.conn.WriteMessage(websocket.TextMessage, []byte(f)); err != nil {
+			c.dead = true
+			return
+		}
+	}
+}
+
 type wsResult struct {
 	Kind      string // data, ignored, closed, timeout
 	Code      int
@@ -500,6 +513,7 @@ func (s *server) serveWS(e wsEnv, feat bool, async bool, caseNo int) (o apiObs) 
 		c := s.wsConn(e.Proto, feat)
 		c.primedFor = caseNo
 		s.rec.take()
+		c.sendAll(e.Pre)
 		r = c.exchange(e.Raw, e.ID, e.ID+"-s", async)
 	}
 	o.Resolvers, o.Hooks = s.rec.take()
@@ -598,6 +612,7 @@ func (d *decoderServer) decodeWS(e wsEnv, caseNo int) sexp.Node {
 		c.prime(caseNo)
 		d.store.Delete(fmt.Sprintf("primer-%d", caseNo))
 		d.store.Delete(fmt.Sprintf("primer-%d-sub", caseNo))
+		c.sendAll(e.Pre)
 		r = c.exchange(e.Raw, e.ID, e.ID+"-s", false)
 	}
 	switch r.Kind {
